@@ -4,12 +4,13 @@
    compio-driver/src/fd.rs: Drop = check / wake / decrement, take() = swap / try_unwrap / register /
    try_unwrap / Pending / re-poll) in the unsync variant (methods atomic) and the sync variant (steps of
    different threads interleave): closed <= 1, closed => nobody else holds it and no operation uses it,
-   no leak, and on the fair spec "everybody else released ~> take() returns". The recorded deviations
-   (SilentRelease, DropRace, ForgetsHandle) are named; control runs show that exactly they break the
-   liveness clause and that the repaired protocol (Variant "fixed") satisfies it.
+   no leak, and on the fair spec "everybody else released ~> take() returns". The deviations are named:
+   SilentRelease and ForgetsHandle are repaired in /repo (switches; control configs with the old behaviour
+   must violate), DropRace (sync) is open: a control run shows that it breaks the liveness clause and that
+   the release protocol of Variant "fixed" satisfies it.
    spec/SharedFdProd.tla: descriptor-producing operations (accept / open / socket / pipe / multishot accept)
    through push / poll / pop / cancel / key drop / driver drop on both drivers:
-   produced ~> delivered to the caller or closed (deviation DrvDropDiscardsCqe named).
+   produced ~> delivered to the caller or closed (deviation DrvDropDiscardsCqe repaired in /repo; control config).
 2. Binding:
    a. every sequential program of Gen_SharedFd replayed on SharedFd<Instrumented> (unsync AND sync build) and,
       for the file layer, on compio_fs::File / compio_net::TcpStream / UnixStream with close().await on both
@@ -43,38 +44,43 @@ NOTE = ("Bounds: <= 3 (thorough: 4) other holders (handles + operations) and one
         "programs: one operation, <= 2 polls, <= 2 connections. Drop's two loads (strong_count, waits) are one model step "
         "(the add-only hooks cannot separate them). The kernel is eager in the producer programs (completion caused by the "
         "harness on the ring's own thread). Sequentially consistent model: weak-memory reorderings are not explored. "
-        "Four genuine defects are recorded as known findings (notes/C06.md).")
+        "Three of the four genuine defects found were repaired in /repo (fix: commits, notes/C06.md); the drop race of the "
+        "multi-threaded build is recorded as a known finding.")
 TECHNIQUE = "TLA+ models (TLC exhaustive, liveness) + behaviour/schedule replay on real code with contract oracle"
 DESIGN_REF = "3/C06"
 
-# actions that cannot occur in a variant (SharedFd.tla holds three variants of the release protocol)
-NOT_IN = {
-    "unsync": {"FDropDec", "FDropNotify"},
-    "sync": {"FDropDec", "FDropNotify"},
-    "fixed": {"DropCheck", "DropWake", "DropDec"},
-}
-T2 = {"T2Swap", "T2Release"}
+# actions that cannot occur in a configuration (SharedFd.tla holds the repaired code, the code before the
+# repairs (switches SilentRelease / ForgetsHandle) and the "fixed" release protocol)
+FIXED_ONLY = {"FDropDec", "FDropNotify"}
+REPAIRED = FIXED_ONLY | {"T2Release"}
+OLD_SILENT = FIXED_ONLY | {"T2None", "CDropCheck", "CDropWake", "CDropDec"}
+FIXED = {"DropCheck", "DropWake", "DropDec", "T2None", "CDropCheck", "CDropWake", "CDropDec"}
 
 
 def _mc_jobs(tier):
     """(module, cfg, expected violated property or None, actions allowed to be absent)"""
     jobs = [
-        ("SharedFd", "MC_SharedFd_unsync.cfg", None, NOT_IN["unsync"] | T2),
-        ("SharedFd", "MC_SharedFd_unsync_take2.cfg", None, NOT_IN["unsync"]),
-        ("SharedFd", "MC_SharedFd_unsync_take2_strict.cfg", "Live", None),
-        ("SharedFd", "MC_SharedFd_sync.cfg", None, NOT_IN["sync"]),
-        ("SharedFd", "MC_SharedFd_sync_strict.cfg", "Live", None),
-        ("SharedFd", "MC_SharedFd_fixed.cfg", None, NOT_IN["fixed"]),
-        ("SharedFd", "MC_SharedFd_file_strict.cfg", "NoLeakLive", None),
+        # the code as it is now (silent release, forgotten handle and Driver::drop repaired)
+        ("SharedFd", "MC_SharedFd_unsync.cfg", None, REPAIRED),
+        ("SharedFd", "MC_SharedFd_file.cfg", None, REPAIRED),
+        ("SharedFd", "MC_SharedFd_sync.cfg", None, REPAIRED),
         ("SharedFdProd", "MC_SharedFdProd.cfg", None, set()),
-        ("SharedFdProd", "MC_SharedFdProd_strict.cfg", "Delivered", None),
-        ("SharedFdProd", "MC_SharedFdProd_fixed.cfg", None, set()),
+        # the open finding: the sync drop race breaks the liveness clause ...
+        ("SharedFd", "MC_SharedFd_sync_strict.cfg", "Live", None),
+        # ... and the release protocol that would repair it satisfies it
+        ("SharedFd", "MC_SharedFd_fixed.cfg", None, FIXED),
+        # controls: the code before each repair must violate
+        ("SharedFd", "MC_SharedFd_unsync_old_silent.cfg", "Live", None),
+        ("SharedFd", "MC_SharedFd_file_old_forgets.cfg", "NoLeakLive", None),
+        ("SharedFdProd", "MC_SharedFdProd_old_drvdrop.cfg", "Delivered", None),
     ]
     if tier == "thorough":
         jobs += [
-            ("SharedFd", "MC_SharedFd_unsync_thorough.cfg", None, NOT_IN["unsync"]),
-            ("SharedFd", "MC_SharedFd_sync_thorough.cfg", None, NOT_IN["sync"]),
-            ("SharedFd", "MC_SharedFd_fixed_thorough.cfg", None, NOT_IN["fixed"]),
+            ("SharedFd", "MC_SharedFd_unsync_thorough.cfg", None, REPAIRED),
+            ("SharedFd", "MC_SharedFd_sync_thorough.cfg", None, REPAIRED),
+            ("SharedFd", "MC_SharedFd_fixed_thorough.cfg", None, FIXED),
+            ("SharedFd", "MC_SharedFd_unsync_old_silent_modulo.cfg", None, OLD_SILENT),
+            ("SharedFdProd", "MC_SharedFdProd_old_drvdrop_modulo.cfg", None, set()),
         ]
     return jobs
 
@@ -171,8 +177,12 @@ def run(run, tier, replay):
                 "unsync": pool.submit(_gen, "Gen_SharedFd",
                                       "Gen_SharedFd.cfg" if tier == "quick" else "Gen_SharedFd_thorough.cfg", p_unsync),
                 "file": pool.submit(_gen, "Gen_SharedFd", "Gen_SharedFd_file.cfg", p_file),
+                # quick: every interleaving of two dropping holders and the closer, and of one holder that
+                # drops or calls take() itself and the closer; thorough: two holders with take(), three holders
                 "sync": pool.submit(_gen, "Gen_SharedFdSync",
-                                    "Gen_SharedFdSync.cfg" if tier == "quick" else "Gen_SharedFdSync_3.cfg", p_sync),
+                                    "Gen_SharedFdSync_drops.cfg" if tier == "quick" else "Gen_SharedFdSync_3.cfg", p_sync),
+                "sync2": pool.submit(_gen, "Gen_SharedFdSync",
+                                     "Gen_SharedFdSync_t2.cfg" if tier == "quick" else "Gen_SharedFdSync_full.cfg", p_sync + ".2"),
                 "prod": pool.submit(_gen, "Gen_SharedFdProd",
                                     "Gen_SharedFdProd.cfg" if tier == "quick" else "Gen_SharedFdProd_thorough.cfg", p_prod),
             }
@@ -197,8 +207,10 @@ def run(run, tier, replay):
         if tier == "thorough":
             # all interleavings of 3 holders + closer are generated; a seeded sample is replayed
             p2 = os.path.join(tmp, "sync_s.jsonl")
-            counts["sync_replayed"] = _subset(p_sync, p2, 6000, rnd)
+            counts["sync_replayed"] = _subset(p_sync, p2, 4000, rnd)
             p_sync = p2
+        with open(p_sync, "a") as f, open(p_sync + ".2") as g2:
+            shutil.copyfileobj(g2, f)
             p3 = os.path.join(tmp, "prod_s.jsonl")
             # every single-shot program, a seeded sample of the (many) multishot programs
             counts["prod_replayed"] = _subset(p_prod, p3, 15000, rnd, keep=lambda l: '"class": "multi"' not in l)
